@@ -565,3 +565,86 @@ func c11Scenarios(thorough bool) []*scenario {
 	add("bl/restart/cuts", polBalloons, machine8(), []cfgSpec{blCfg("dyn", defs)}, blp, cut)
 	return out
 }
+
+
+// ---------------------------------------------------------------------------
+// C14
+
+func c14Scenarios(thorough bool) []*scenario {
+	var out []*scenario
+	ups := []updSpec{{label: "to-1500m", cpuReq: 1500, cpuLim: 1500, memLim: 100 * miB}}
+	mn := menu{start: true, update: true, stop: true, remove: true, sync: true, podRun: true, podStop: true, podRemove: true, illFormed: true, ghost: true, reconf: []int{0}}
+	depth := 3
+	if thorough {
+		depth = 4
+	}
+	ks := pod1("ks", "kube-system", "Burstable", tB200, nil)
+	s1 := &scenario{name: "ta/c14/known-unknown-removed", policy: polTA, machine: machine8(), cfgs: []cfgSpec{taCfg("rsv750m")},
+		pods: append(pods(tG2, tB500), ks), menu: mn, updates: ups, depth: depth, maxInc: 2}
+	defs := []*blcfg.BalloonDef{{Name: "dyn", Namespaces: []string{"default"}, MinCpus: 1, MaxCpus: 4, PreferNewBalloons: true, ShareIdleCpusInSame: blcfg.CPUTopologyLevelSystem}}
+	s2 := &scenario{name: "bl/c14/known-unknown-removed", policy: polBalloons, machine: machine8(), cfgs: []cfgSpec{blCfg("dyn", defs)},
+		pods: append(pods(tG2, tB500), ks), menu: mn, updates: ups, depth: depth, maxInc: 2}
+	// two containers in one pod: pod-level events hit several containers at once
+	two := podSpec{name: "two", ns: "default", qos: "Burstable", ctrs: []ctrSpec{{name: "a", t: tB500}, {name: "b", t: tB200}}}
+	s3 := &scenario{name: "ta/c14/two-container-pod", policy: polTA, machine: machine8(), cfgs: []cfgSpec{taCfg("rsv750m")},
+		pods: []podSpec{two, pods(tG1)[0]}, menu: mn, updates: ups, depth: depth, maxInc: 1}
+	s4 := &scenario{name: "bl/c14/two-container-pod", policy: polBalloons, machine: machine8(), cfgs: []cfgSpec{blCfg("dyn", defs)},
+		pods: []podSpec{two, pods(tG1)[0]}, menu: mn, updates: ups, depth: depth, maxInc: 1}
+	out = append(out, s1, s2, s3, s4)
+	for _, s := range out {
+		s.prefix = runAll(len(s.pods))
+	}
+	return out
+}
+
+func c14InputCases(thorough bool) []*scenario {
+	ns := "resource-policy.nri.io"
+	keys := []string{
+		"rdtclass." + ns, "blockioclass." + ns, "toptierlimit." + ns, "topologyhints." + ns, "allow.topologyhints." + ns, "deny.topologyhints." + ns,
+		"cpu.preserve." + ns, "memory.preserve." + ns, "memory-type." + ns, "prefer-isolated-cpus." + ns, "prefer-shared-cpus." + ns, "cold-start." + ns,
+		"prefer-reserved-cpus." + ns, "prefer-cpu-priority." + ns, "hide-hyperthreads." + ns, "balloon.balloons." + ns,
+	}
+	big := string(make([]byte, 1<<20))
+	values := []string{"", "true", "false", "0", "-1", "99999999999999999999999", "1.5", "not-a-bool", "[1,2", "{a: b", "null", "- null", "~", "key: [unterminated",
+		`{"duration":"5s"}`, `{"duration":"-5s"}`, `{"duration": null}`, "duration: 99999h", "dram,pmem", "dram,,pmem", "hbm", "foo", "type: prefix\npaths: [/a, null]", "type: 7\npaths: x",
+		"type: glob\npaths:\n- \"[\"", "high", "none", "reserved", "default", "nonexistent-balloon", "a\x00b", big}
+	forms := []string{"/container.c", "/pod", ""}
+	affValues := []string{"", "null", "c: [x]", "c:\n- null", "c:\n  - scope: null\n    match: null", "c:\n  - match:\n      key: name\n      operator: Bogus\n      values: [a]",
+		"c:\n  - match:\n      key: name\n      operator: In\n      values: null\n    weight: 99999999999", "[1,2", "c: {a: b}", "{c: [{match: {key: 'pod/labels/x', operator: Exists}}]}",
+		"c:\n  - scope:\n      key: tags/x\n      operator: Matches\n      values: [\"[\"]\n    match:\n      key: :,-::ns:\n      operator: Equals\n      values: [a]", big}
+	var out []*scenario
+	ups := []updSpec{{label: "to-1500m", cpuReq: 1500, cpuLim: 1500, memLim: 100 * miB}}
+	defs := []*blcfg.BalloonDef{{Name: "dyn", Namespaces: []string{"default"}, MinCpus: 1, MaxCpus: 4, ShareIdleCpusInSame: blcfg.CPUTopologyLevelSystem}}
+	mk := func(pol, name string, ann map[string]string, t *tmpl, qos string) {
+		s := &scenario{name: name, policy: pol, machine: machine8(), pods: []podSpec{pod1("p", "default", qos, t, ann)}, updates: ups, maxInc: 1}
+		if pol == polTA {
+			s.cfgs = []cfgSpec{taCfg("rsv750m")}
+		} else {
+			s.cfgs = []cfgSpec{blCfg("dyn", defs)}
+		}
+		out = append(out, s)
+	}
+	for _, pol := range []string{polTA, polBalloons} {
+		for _, k := range keys {
+			for vi, v := range values {
+				for _, f := range forms {
+					mk(pol, fmt.Sprintf("%s/ann/%s%s/v%d", pol, k, f, vi), map[string]string{k + f: v}, tG2, "Guaranteed")
+				}
+			}
+		}
+		for _, k := range []string{ns + "/affinity", ns + "/anti-affinity"} {
+			for vi, v := range affValues {
+				mk(pol, fmt.Sprintf("%s/ann/%s/v%d", pol, k, vi), map[string]string{k: v}, tG2, "Guaranteed")
+			}
+		}
+		for _, shape := range []string{"no-linux", "no-resources", "no-cpu", "no-memory", "no-oomadj", "pod-no-linux"} {
+			for _, base := range []*tmpl{tG2, tB500, tBE} {
+				t := *base
+				t.shape = shape
+				t.name = base.name + "/" + shape
+				mk(pol, fmt.Sprintf("%s/shape/%s", pol, t.name), nil, &t, qosOf(base))
+			}
+		}
+	}
+	return out
+}
